@@ -27,6 +27,7 @@ func c09(c *Ctx) {
 	c05R2(c)
 	c04R5(c)
 	rulePodExist(c, "C09.R6")
+	c09R7(c)
 }
 
 func c09R1(c *Ctx) {
@@ -590,4 +591,122 @@ func contradictionRule(c *Ctx, rule string, fn *FuncInfo) int {
 		return true
 	})
 	return n
+}
+
+// R7: a pass that fails does not end the loop. gcPods is called from a polling
+// callback (func(ctx) (done bool, err error)): the poller stops for good on the
+// first non-nil error or done == true, so every return of the callback yields
+// the constants (false, nil); with named results a bare return is accepted only
+// when the results are never assigned anything else.
+func c09R7(c *Ctx) {
+	p := c.P
+	c.Rule("C09.R7", "the garbage-collection loop survives a failing pass: the polling callback that calls gcPods returns (false, nil) on every return — the error of a pass is logged, never handed to the poller (which would stop polling for good)")
+	gc := p.Func(daemonPkg, "networkService.gcPods")
+	if gc == nil {
+		c.Unres("C09.R7", "networkService.gcPods", "not found")
+		return
+	}
+	n := 0
+	for _, fn := range p.FuncsInPkg(daemonPkg) {
+		for _, cs := range p.CallsTo([]*FuncInfo{fn}, gc.Obj) {
+			info := fn.Info()
+			if cs.Lit == nil {
+				// called from a function body: the loop form. No return / break in the enclosing loop except on ctx.Done()
+				var loop *ast.ForStmt
+				for _, x := range pathTo(fn.Decl.Body, cs.Call) {
+					if f, ok := x.(*ast.ForStmt); ok && loop == nil {
+						loop = f
+					}
+				}
+				if loop == nil {
+					c.Undec("C09.R7", fn.Name+": gcPods is called from a loop or a polling callback", p.Pos(cs.Call), fn.Key(), "periodic driver", "neither a polling callback nor a for loop encloses the call")
+					continue
+				}
+				n++
+				bad := ""
+				ast.Inspect(loop.Body, func(k ast.Node) bool {
+					switch s := k.(type) {
+					case *ast.FuncLit:
+						return false
+					case *ast.CommClause:
+						if s.Comm != nil && strings.Contains(exprString2(s.Comm), "Done()") {
+							return false
+						}
+					case *ast.ReturnStmt:
+						bad = p.Pos(s)
+					case *ast.BranchStmt:
+						if s.Tok == token.BREAK || s.Tok == token.GOTO {
+							bad = p.Pos(s)
+						}
+					}
+					return true
+				})
+				c.Check(bad == "", "C09.R7", fn.Name+": the loop around gcPods ends only on ctx.Done()", p.Pos(loop), fn.Key(), "no return / break in the loop body outside the Done() case", "exit at "+bad)
+				continue
+			}
+			sig, _ := info.TypeOf(cs.Lit).(*types.Signature)
+			if sig == nil || sig.Results().Len() != 2 || errResultIndex(sig) != 1 {
+				// a callback without results (wait.Until style) cannot stop the loop
+				n++
+				c.Check(sig != nil && sig.Results().Len() == 0, "C09.R7", fn.Name+": the callback around gcPods cannot stop the loop", p.Pos(cs.Lit), fn.Key(), "func() or func(ctx) (bool, error)", "unexpected callback signature")
+				continue
+			}
+			n++
+			named := map[types.Object]bool{}
+			for i := 0; i < 2; i++ {
+				if v := sig.Results().At(i); v.Name() != "" && v.Name() != "_" {
+					named[v] = true
+				}
+			}
+			// assignments to the named results (other than the constants)
+			dirty := map[types.Object]string{}
+			ast.Inspect(cs.Lit.Body, func(k ast.Node) bool {
+				if fl, ok := k.(*ast.FuncLit); ok && fl != cs.Lit {
+					return false
+				}
+				as, ok := k.(*ast.AssignStmt)
+				if !ok {
+					return true
+				}
+				for i, l := range as.Lhs {
+					o := identObj(info, l)
+					if o == nil || !named[o] {
+						continue
+					}
+					clean := false
+					if len(as.Rhs) == len(as.Lhs) {
+						tv := info.Types[ast.Unparen(as.Rhs[i])]
+						clean = tv.IsNil() || (tv.Value != nil && tv.Value.String() == "false")
+					}
+					if !clean {
+						dirty[o] = p.Pos(as)
+					}
+				}
+				return true
+			})
+			for _, r := range declReturns(cs.Lit.Body) {
+				ok, why := true, ""
+				if len(r.Results) == 0 {
+					for o, at := range dirty {
+						ok, why = false, "bare return with "+o.Name()+" assigned at "+at
+					}
+				} else if len(r.Results) == 2 {
+					for i, x := range r.Results {
+						tv := info.Types[ast.Unparen(x)]
+						if tv.IsNil() || (tv.Value != nil && tv.Value.String() == "false") {
+							continue
+						}
+						if o := identObj(info, x); o != nil && named[o] && dirty[o] == "" {
+							continue
+						}
+						ok, why = false, fmt.Sprintf("result %d is %s", i, exprString(x))
+					}
+				} else {
+					ok, why = false, "forwarded call"
+				}
+				c.Check(ok, "C09.R7", fn.Name+": the polling callback returns (false, nil)", p.Pos(r), fn.Key(), "every return of the callback yields the constants false, nil", why)
+			}
+		}
+	}
+	c.Floor("C09.R7", "drivers of gcPods", 1, n)
 }
